@@ -36,6 +36,21 @@ fn check(spec: &Spec, obs: &mut Obs) -> Result<(), Fail> {
     let r = run::validate(spec.era, &exact.tx, &exact.utxos, &env_below);
     pv_ensure!(matches!(r, run::Outcome::Rejected(_)), format!("size-above-limit-accepted:{era}"),
         "max_transaction_size = size-1 = {} accepts a {}-byte transaction: {:?}", size - 1, size, r);
+    // the same two fee verdicts for the transaction as a program would assemble it: the witness set as an
+    // in-memory value (no retained bytes), body and auxiliary data untouched
+    if let (Some(a), Some(b)) = (run::validate_in_memory(spec.era, &exact.tx, &exact.utxos, &env), run::validate_in_memory(spec.era, &below.tx, &below.utxos, &env)) {
+        obs.class(format!("{era}:in-memory-parts"));
+        pv_ensure!(a == run::Outcome::Accepted, format!("exact-min-fee-rejected:{era}:in-memory-parts"),
+            "fee = a*size+b = {} for size {} is rejected when the witness set is an in-memory value: {:?}", exact.fee, size, a);
+        pv_ensure!(matches!(b, run::Outcome::Rejected(_)), format!("fee-below-min-accepted:{era}:in-memory-parts"),
+            "fee = min-1 = {} for size {} is not rejected when the witness set is an in-memory value: {:?}", below.fee, size, b);
+        let c = run::validate_in_memory(spec.era, &exact.tx, &exact.utxos, &env_below);
+        pv_ensure!(matches!(c, Some(run::Outcome::Rejected(_))), format!("size-above-limit-accepted:{era}:in-memory-parts"),
+            "max_transaction_size = size-1 = {} accepts the {}-byte transaction when the witness set is an in-memory value: {:?}", size - 1, size, c);
+    }
+    if spec.donation.is_some() && spec.era == forge::EraK::Conway {
+        obs.class("conway:with-donation");
+    }
     obs.class(format!("{era}:{}", if exact.aux.is_some() { "with-aux" } else { "no-aux" }));
     obs.nontrivial();
     Ok(())
